@@ -33,8 +33,23 @@ have no documented template (template clause silent) but every run below them mu
 The "props" wrapper now also interleaves the schema's property element of every object (sSubPr, sSupPr, sSubSupPr,
 funcPr, barPr, mPr with its column properties, ctrlPr inside dPr/naryPr/accPr) and a w:rPr inside every run.
 
+Attributes (families V*): the character attributes (m:chr of naryPr / accPr / groupChrPr, m:begChr / m:endChr / m:sepChr of
+dPr) are ST_Char STRINGS - empty, one code point, or several (a mark after a carrier such as space / NBSP / U+25CC, two
+marks, two operators, a bracket pair, a LaTeX command). V1: 27 named value strings (VSTR) x every presence variant of the
+object that carries them (operand lattice absent / empty / run / symbol / two runs / bracket run, all n-ary limit
+combinations, begChr/endChr/sepChr given / absent / without m:val / empty, 0-3 delimiter operands, wrappers). V2: EVERY
+string of length 0..2 over the 26-character base VBASE (carriers, the documented accent marks and n-ary operators, mapped
+symbols, brackets, braces, ASCII; thorough: + length 3 over the 10-character VBASE3) as accent / n-ary / delimiter /
+separator / group character. V3: wrappers propsE / propsN = like props, but the m:val of EVERY property element (sty, type,
+degHide, limLoc, grow, alnScr, pos, baseJc, count, mcJc, opEmu, hideTop, vertJc, rSp, zeroWid, ...) is empty / the attribute
+is absent - over every single structure, the node alphabet in a sequence, the generic objects (thorough: every slot).
+V4: an accent / n-ary / delimiter / group character object with a value string in every operand slot of every constructor
+and generic object (quick: 5 of the strings). Template for these: an accent value that is not one documented mark gives
+\\hat (a value of several code points may also be rendered by its last documented mark); delimiter operands are joined by
+", " (or by an explicitly given m:sepChr); an n-ary value is emitted verbatim or through the symbol table.
+
 Document path (family X, helper c19_docs.py): users reach the converter only through read_docx / read_pptx. Every tree of
-the families X_FAMILIES (quick: Aw B2 T1 T2 G1 + XA = family A with the 3-operand lattice cut to absent / empty / label;
+the families X_FAMILIES (quick: Aw B2 T1 T2 G1 V1 V3 + XA = family A with the 3-operand lattice cut to absent / empty / label;
 thorough: every family of the quick enumeration, which contains XA) is ALSO embedded in a
 generated .docx and .pptx (16 formulas per document, each in its own paragraph between marker tokens, wrappers omath =
 inline, para = oMathPara/display, props = with w:rPr etc.), extracted with the real extractor, and must come out of
@@ -68,6 +83,29 @@ D_END = {"[": "]", "|": "|", "": ""}
 ACC_CHR = ["absent", "noval", "̃", "⃗", "x"]
 FNAMES = ["sin", "lim", "fn"]
 W = "{http://schemas.openxmlformats.org/wordprocessingml/2006/main}"
+WRAPPERS = ("omath", "para", "props", "propsE", "propsN")
+# wrapper -> property mode: 1 = property elements with their values, "E" = every m:val of a property present but EMPTY,
+# "N" = every property element WITHOUT its m:val attribute (the schema default applies)
+_PROPS_MODE = {"props": 1, "propsE": "E", "propsN": "N"}
+
+# Value STRINGS of the character attributes (ST_Char: a string, possibly empty, possibly longer than one code point).
+# VBASE: the characters strings are formed from - carriers (space, NBSP, dotted circle), the five documented accent marks
+# and an undocumented one, the five documented n-ary operators, mapped symbols, brackets / fences, ASCII.
+VBASE = [" ", "\u00a0", "\u25cc", "\u0302", "\u0303", "\u0304", "\u20d7", "\u0307", "\u0338", "\u2211", "\u220f", "\u222b",
+         "\u222c", "\u222d", "\u03b1", "\u221e", "(", ")", "[", "]", "|", "{", "}", "^", "x", "\\"]
+VBASE3 = [" ", "\u25cc", "\u0303", "\u20d7", "\u2211", "\u222b", "\u03b1", "(", ")", "x"]
+# VSTR: the named strings that go through every presence variant / operand lattice / slot / document (families V1, V4)
+VSTR = ["", "  ", " \u0303", "\u25cc\u0303", "\u00a0\u0302", "\u25cc\u20d7", "\u0303 ", "\u0302\u0303", "x\u0302", "\u2211\u2211",
+        "\u222b\u222b", "\u2211 ", " \u222b", "\u03b1\u03b2", "\u221e\u03b1", "()", ")(", "[]", "||", "\u27e8\u27e9", "\\hat", "lim",
+        "^^", "abc", "\u2032\u2032", "\t", "\u25cc\u0303\u0302"]
+
+
+def value_strings(tier):
+    """every string of length 0..2 over VBASE (thorough: + length 3 over VBASE3)"""
+    out = [""] + list(VBASE) + [a + b for a in VBASE for b in VBASE]
+    if tier != "quick":
+        out += [a + b + c for a in VBASE3 for b in VBASE3 for c in VBASE3]
+    return out
 
 # frozen transcription of the documented Greek / symbol table (code point -> command)
 REF_SYM = {chr(int(k, 16)): v for k, v in (x.split("=", 1) for x in (
@@ -332,6 +370,78 @@ def generic_cases(tier):
                             yield "G6", ["omath", [g1([g2([n])]), R(")")]]
 
 
+def _gchr(s, x, extra=()):
+    """m:groupChr whose m:chr holds the value string s (None: m:chr without m:val)"""
+    return G("groupChr", [x], [["chr", s]] + [list(e) for e in extra])
+
+
+def value_cases(tier):
+    """V families: the ATTRIBUTES - value strings of the character attributes, and the m:val of every property element"""
+    quick = tier == "quick"
+    L = [R("L")]
+    SYMR = [R("\u211d")]       # the symbol operand of these families (its character is not part of any value string)
+    # V1: the named value strings x every presence variant / operand lattice of the object that carries them
+    for s_ in VSTR:
+        for a in (None, [], L, SYMR, [R("L"), R("L")], [R("(")], [R("L"), R(")")]):
+            for w in ("omath", "para", "props"):
+                yield "V1", [w, [["acc", s_, a]]]
+        for sub, sup, e in itertools.product((None, L), (None, SYMR), (None, [], L)):
+            for w in ("omath", "props"):
+                yield "V1", [w, [["nary", s_, sub, sup, e], R("L")]]
+        for b, e_ in ((s_, s_), (s_, "absent"), ("absent", s_), (s_, "noval"), ("noval", s_), (s_, ""), ("", s_)):
+            for es in ([L], [L, SYMR], [], [[], L]):
+                yield "V1", ["omath", [["d", b, e_, [list(x) for x in es]]]]
+                yield "V1", ["props", [R("L"), ["d", b, e_, [list(x) for x in es], s_]]]
+        for sep in ("noval", s_):
+            for es in ([L], [L, L], [L, [], SYMR]):
+                for b in ("absent", "nodpr", "[", ""):
+                    yield "V1", ["omath", [["d", b, b, [list(x) for x in es], sep], R("L")]]
+        for x in (None, [], L, SYMR, [R("L"), R("L")]):
+            yield "V1", ["omath", [_gchr(s_, x)]]
+            yield "V1", ["props", [R("L"), _gchr(s_, x, (("pos", "top"), ("vertJc", "bot")))]]
+    yield "V1", ["omath", [_gchr(None, L)]]
+    # V2: every string of length 0..2 over VBASE (thorough: + length 3 over VBASE3) as each character attribute
+    for s_ in value_strings(tier):
+        yield "V2", ["omath", [["acc", s_, L]]]
+        yield "V2", ["omath", [["nary", s_, None, None, L]]]
+        yield "V2", ["omath", [["d", s_, s_, [L]]]]
+        yield "V2", ["omath", [["d", "absent", "absent", [L, L], s_]]]
+        yield "V2", ["omath", [_gchr(s_, L)]]
+        if not quick:
+            yield "V2", ["props", [["acc", s_, [R("L"), R("L")]], R("L")]]
+            yield "V2", ["props", [["nary", s_, L, L, L]]]
+            yield "V2", ["omath", [["d", s_, "absent", [L, L], s_]]]
+            yield "V2", ["omath", [["d", "absent", s_, [L]]]]
+    # V3: every property element of every object with its m:val EMPTY (propsE) / WITHOUT m:val (propsN)
+    N1 = node_alphabet()
+    GN = generic_nodes()
+    for w in ("propsE", "propsN"):
+        for s_ in structures(TINY + [[R("L"), R("L")]], TINY):
+            yield "V3", [w, [s_]]
+        for n in N1 + GN:
+            yield "V3", [w, [R("L"), n, R(")"), R("L")]]
+        for tag in GTAGS:
+            for ops in itertools.product([None, [], L], repeat=len(GENERIC[tag][0])):
+                yield "V3", [w, [G(tag, ops, 1)]]
+        if not quick:
+            for k in KINDS:
+                for mk in positions(k):
+                    for n in N1 + GN:
+                        yield "V3", [w, [mk([n]), R(")")]]
+    # V4: an object with a named value string in every operand slot of every constructor / generic object
+    objs = lambda s_: (["acc", s_, L], ["nary", s_, None, None, L], ["d", s_, s_, [L, L], s_], _gchr(s_, L))
+    for s_ in (VSTR if not quick else VSTR[:1] + VSTR[2:4] + VSTR[9:10] + VSTR[15:16]):
+        for k in KINDS:
+            for mk in positions(k):
+                for o in objs(s_):
+                    yield "V4", ["omath", [mk([o])]]
+                    yield "V4", ["omath", [mk([R("L"), o]), R(")")]]
+        for tag in GTAGS:
+            for mk in gpositions(tag)[::2]:
+                for o in objs(s_):
+                    yield "V4", ["omath", [mk([o]), R("L")]]
+
+
 def enumerate_cases(tier):
     """Yield (family, tree). tree = [wrapper, [nodes]]"""
     quick = tier == "quick"
@@ -372,6 +482,7 @@ def enumerate_cases(tier):
                             yield "D3", ["omath", [mk([mk2([n]), R("L")]), R(")")]]
     yield from text_cases(tier)
     yield from generic_cases(tier)
+    yield from value_cases(tier)
     if not quick:
         # B4: all 4-sequences over the bracket / radical / run sub-alphabet (pending-closer stack interplay)
         Nq = [n for n in N1 if n[0] == "rad" or (n[0] == "r" and n[1] in ("L", ")", "]", "}", "(", "["))] + [["f", [R("L")], [R(")")]],
@@ -441,8 +552,10 @@ def build(tree, lab):
         top = ET.Element(M + "oMathPara")
         ET.SubElement(top, M + "oMathParaPr")
         top.append(root)
+    if wrapper not in WRAPPERS:
+        raise ValueError(wrapper)
     for n in nodes:
-        _node(root, n, lab, props=(wrapper == "props"))
+        _node(root, n, lab, props=_PROPS_MODE.get(wrapper, False))
     if wrapper == "para":
         # callers pass either the oMathPara or the oMath; the para wrapper must not change the result
         return top
@@ -452,6 +565,13 @@ def build(tree, lab):
 # property element of the objects that the grammar otherwise builds without one (only under the "props" wrapper)
 _PROPS_PR = {"sSub": [], "sSup": [], "sSubSup": ["alnScr"], "func": [], "bar": ["pos"],
              "m": ["baseJc", "plcHide", "mcs/mc/mcPr/count", "mcs/mc/mcPr/mcJc"]}
+
+
+def _pval(el, v, props):
+    """the m:val of a PROPERTY element: as given / empty (mode E) / attribute absent (mode N)"""
+    if props == "N":
+        return
+    el.set(M + "val", "" if props == "E" else v)
 
 
 def _operand(parent, name, val, lab, props):
@@ -470,7 +590,7 @@ def _node(parent, n, lab, props=False):
         r = ET.SubElement(parent, M + "r")
         if props:
             rp = ET.SubElement(r, M + "rPr")
-            ET.SubElement(rp, M + "sty").set(M + "val", "p")
+            _pval(ET.SubElement(rp, M + "sty"), "p", props)
             wp = ET.SubElement(r, W + "rPr")
             ET.SubElement(wp, W + "rFonts").set(W + "ascii", "Cambria Math")
             ET.SubElement(wp, W + "i")
@@ -483,16 +603,24 @@ def _node(parent, n, lab, props=False):
         el = ET.SubElement(parent, M + tag)
         if pr or props:
             pe = ET.SubElement(el, M + tag + "Pr")
-            if pr:
+            if isinstance(pr, list):
+                # explicit property children [[name, value | None]]: the value strings of family V (None = no m:val)
+                for nm, v in pr:
+                    c = ET.SubElement(pe, M + nm)
+                    if v is not None:
+                        c.set(M + "val", v)
+                        if "{" in v or "}" in v:
+                            lab.has_brace = True
+            elif pr:
                 for nm, v in prkids:
-                    ET.SubElement(pe, M + nm).set(M + "val", v)
+                    _pval(ET.SubElement(pe, M + nm), v, props)
             ET.SubElement(pe, M + "ctrlPr")
         for nm, v in zip(names, ops):
             _operand(el, nm, v, lab, props)
         return
     if k not in KINDS:
         raise ValueError(k)
-    if k in ("nary", "d", "acc") and any("{" in v or "}" in v for v in n[1:3] if isinstance(v, str)):
+    if k in ("nary", "d", "acc") and any("{" in v or "}" in v for v in n[1:3] + n[4:5] if isinstance(v, str)):
         lab.has_brace = True     # a literal brace given as operator / delimiter / accent character
     el = ET.SubElement(parent, M + k)
     if props and k in _PROPS_PR:
@@ -501,12 +629,12 @@ def _node(parent, n, lab, props=False):
             q = pe
             for nm in path.split("/"):
                 q = ET.SubElement(q, M + nm)
-            q.set(M + "val", "1")
+            _pval(q, "1", props)
         ET.SubElement(pe, M + "ctrlPr")
     if k == "f":
         if props:
             pr = ET.SubElement(el, M + "fPr")
-            ET.SubElement(pr, M + "type").set(M + "val", "bar")
+            _pval(ET.SubElement(pr, M + "type"), "bar", props)
         _operand(el, "num", n[1], lab, props)
         _operand(el, "den", n[2], lab, props)
     elif k == "sSup":
@@ -523,7 +651,7 @@ def _node(parent, n, lab, props=False):
         if props:
             pr = ET.SubElement(el, M + "radPr")
             if n[1] is None:
-                ET.SubElement(pr, M + "degHide").set(M + "val", "1")
+                _pval(ET.SubElement(pr, M + "degHide"), "1", props)
         _operand(el, "deg", n[1], lab, props)
         _operand(el, "e", n[2], lab, props)
     elif k == "nary":
@@ -534,25 +662,26 @@ def _node(parent, n, lab, props=False):
                 c = ET.SubElement(pr, M + "chr")
                 if ch != "noval":
                     c.set(M + "val", ch)
-            ET.SubElement(pr, M + "limLoc").set(M + "val", "undOvr")
+            _pval(ET.SubElement(pr, M + "limLoc"), "undOvr", props)
             if props:
-                ET.SubElement(pr, M + "grow").set(M + "val", "1")
+                _pval(ET.SubElement(pr, M + "grow"), "1", props)
                 ET.SubElement(pr, M + "ctrlPr")
         _operand(el, "sub", n[2], lab, props)
         _operand(el, "sup", n[3], lab, props)
         _operand(el, "e", n[4], lab, props)
     elif k == "d":
         b, e_ = n[1], n[2]
-        if not (b == "nodpr" and e_ == "nodpr"):
+        sep = n[4] if len(n) > 4 else "absent"      # optional 5th field: m:sepChr (absent / noval / value string)
+        if not (b == "nodpr" and e_ == "nodpr" and sep == "absent"):
             pr = ET.SubElement(el, M + "dPr")
-            for nm, v in (("begChr", b), ("endChr", e_)):
+            for nm, v in (("begChr", b), ("sepChr", sep), ("endChr", e_)):
                 if v in ("absent", "nodpr"):
                     continue
                 c = ET.SubElement(pr, M + nm)
                 if v != "noval":
-                    c.set(M + "val", v if nm == "begChr" else D_END.get(v, v))
+                    c.set(M + "val", D_END.get(v, v) if nm == "endChr" else v)
             if props:
-                ET.SubElement(pr, M + "grow").set(M + "val", "1")
+                _pval(ET.SubElement(pr, M + "grow"), "1", props)
                 ET.SubElement(pr, M + "ctrlPr")
         for ev in n[3]:
             _operand(el, "e", ev if ev is not None else [], lab, props)
@@ -597,10 +726,12 @@ _FN = {"sin": "\\sin", "cos": "\\cos", "tan": "\\tan", "log": "\\log", "ln": "\\
 class Texts:
     """iterator over the concrete run texts in source order + reference options"""
 
-    def __init__(self, texts, conv=None, op_conv=True):
+    def __init__(self, texts, conv=None, op_conv=True, acc_mark=False, sep_chr=False):
         self.it = iter(texts)
         self.conv = conv or (lambda c: REF_SYM.get(c, c))
         self.op_conv = op_conv      # n-ary operator character passed through the symbol table (else verbatim)
+        self.acc_mark = acc_mark    # an accent value of several code points: rendered by its last documented mark (else \hat)
+        self.sep_chr = sep_chr      # a delimiter with an explicit m:sepChr: operands joined by it (else by ", ")
 
     def __next__(self):
         return next(self.it)
@@ -663,7 +794,13 @@ def _ref(n, texts):
         right = ")" if n[2] in ("absent", "nodpr") else D_END.get(n[2], n[2])
         if not n[3]:
             raise NotWellFormed("delimiter without operand")
-        return left + ", ".join(ref_latex(e if e is not None else [], texts) for e in n[3]) + right
+        sep = ", "
+        if len(n) > 4 and n[4] != "absent":
+            if n[4] == "noval":
+                raise NotWellFormed("separator char without value")
+            if texts.sep_chr:
+                sep = n[4]
+        return left + sep.join(ref_latex(e if e is not None else [], texts) for e in n[3]) + right
     if k == "m":
         if not n[1]:
             raise NotWellFormed("matrix without rows")
@@ -676,6 +813,10 @@ def _ref(n, texts):
     if k == "acc":
         ch = n[1]
         acc = _ACC.get(ch, "\\hat")
+        if texts.acc_mark and len(ch) > 1 and ch not in ("absent", "noval", "noaccpr"):
+            marks = [c for c in ch if c in _ACC]
+            if marks:
+                acc = _ACC[marks[-1]]
         return "%s{%s}" % (acc, _req(n[2], texts))
     raise ValueError(k)
 
@@ -756,7 +897,8 @@ def evaluate(tree, seed=0):
         break
     try:
         exp = ref_latex(tree[1], Texts(texts, conv))
-        if out != exp and out != ref_latex(tree[1], Texts(texts, conv, op_conv=False)):
+        if out != exp and not any(out == ref_latex(tree[1], Texts(texts, conv, op_conv=o, acc_mark=a, sep_chr=s_))
+                                  for o, a, s_ in itertools.product((True, False), repeat=3)):
             fails.append(("template", f"got {out!r}, documented form {exp!r}"))
     except NotWellFormed:
         pass
@@ -862,10 +1004,10 @@ def shrinks(case):
                 yield dict(case, events=evs[:i] + [[e[0], "text"]] + evs[i + 1:])
         if case.get("probe"):
             for sp in shrinks(case["probe"]):
-                if isinstance(sp, list) and len(sp) == 2 and sp[0] in ("omath", "para", "props") and isinstance(sp[1], list):
+                if isinstance(sp, list) and len(sp) == 2 and sp[0] in WRAPPERS and isinstance(sp[1], list):
                     yield dict(case, probe=sp)
         return
-    if len(case) == 2 and isinstance(case[0], list) and case[0] and case[0][0] in ("omath", "para", "props"):
+    if len(case) == 2 and isinstance(case[0], list) and case[0] and case[0][0] in WRAPPERS:
         for i in (0, 1):       # history pair
             for s in shrinks(case[i]):
                 c = list(case); c[i] = s
@@ -900,7 +1042,7 @@ def shrinks(case):
     yield from subst(case)
 
 
-X_FAMILIES_QUICK = ("Aw", "B2", "T1", "T2", "G1")     # + XA below
+X_FAMILIES_QUICK = ("Aw", "B2", "T1", "T2", "G1", "V1", "V3")     # + XA below
 
 
 def xa_cases():
@@ -1021,7 +1163,11 @@ def run(ctx):
                    "thorough: in every operand slot and all ordered pairs over the neighbour alphabet; G1-G6: the OMML objects "
                    "without a dedicated form (limLow limUpp sPre box borderBox groupChr eqArr phant) x property element x "
                    "argument lattice, in every slot of every constructor, holding every node of the alphabet, as function "
-                   "name, nested; distinct_nontrivial = distinct LaTeX outputs; Xdocx/Xpptx: the trees of the families "
+                   "name, nested; V1-V4: the ATTRIBUTES - value strings (empty / one / several code points: carrier + mark, two "
+                   "marks, two operators, bracket pairs, commands) of m:chr (naryPr, accPr, groupChrPr), m:begChr, m:endChr, "
+                   "m:sepChr: named strings x every presence variant and operand lattice, every string of length 0..2 over the "
+                   "value base alphabet as each attribute, in every operand slot; every property element with its m:val empty / "
+                   "absent (wrappers propsE / propsN); distinct_nontrivial = distinct LaTeX outputs; Xdocx/Xpptx: the trees of the families "
                    "listed in bounds.document_path_families embedded in generated .docx/.pptx (16 per document), extracted by "
                    "read_docx/read_pptx, formulas and text compared with the direct conversion; H3: document histories in fresh "
                    "interpreters - the probe set converted before and after every event (extraction of a generated "
@@ -1032,6 +1178,11 @@ def run(ctx):
                       "neighbour_alphabet_chars": len(neighbour_alphabet()),
                       "symbol_blocks": ["U+%04X-U+%04X" % b for b in SYMBOL_BLOCKS],
                       "extra_blocks": ["U+%04X-U+%04X" % b for b in EXTRA_BLOCKS] if not ctx.quick else "sample of %d" % len(EXTRA_SAMPLE),
+                      "value_strings_named": len(VSTR), "value_base_alphabet_chars": len(VBASE),
+                      "value_strings_enumerated": len(value_strings(ctx.tier)),
+                      "value_string_length": "0..2 over VBASE" if ctx.quick else "0..2 over VBASE, 3 over VBASE3 (%d chars)" % len(VBASE3),
+                      "value_attributes": ["naryPr/chr", "accPr/chr", "groupChrPr/chr", "dPr/begChr", "dPr/endChr", "dPr/sepChr"],
+                      "property_val_modes": ["given", "empty (propsE)", "attribute absent (propsN)"],
                       "generic_objects": GTAGS, "generic_argument_lattice": "absent, empty, run, symbol, two runs",
                       "document_path_families": ["XA"] + list(X_FAMILIES_QUICK) if ctx.quick else "every family of the quick enumeration",
                       "document_formats": ["docx", "pptx"], "formulas_per_document": c19_docs.PACK,
@@ -1044,7 +1195,8 @@ def run(ctx):
                             "reference templates transcribed from the module docstring; compared only on the well-formed subset "
                             "(all mandatory operands present, operator characters given, no bracket runs, no object without a "
                             "documented form); an n-ary operator character outside the documented five may be rendered verbatim "
-                            "or through the symbol table",
+                            "or through the symbol table; an accent value of several code points gives \\hat or the command of "
+                            "its last documented mark; delimiter operands are joined by ', ' or by an explicitly given m:sepChr",
                             "the symbol table is a frozen transcription (REF_SYM, 87 entries); a character outside it must pass "
                             "through unchanged or as the command the library's own table declares for it",
                             "document path: the formula is serialised by verif/gen/ooxml.py (m: prefix, xml:space=preserve "
